@@ -211,6 +211,14 @@ func specs() []*spec {
 	return allSpecs
 }
 
+func (sp *spec) encSet(v *V, m mode) encSet {
+	set := sp.encs(v, m)
+	if m.canon {
+		return firstOnly{set}
+	}
+	return set
+}
+
 func (sp *spec) cases(thorough bool) []valCase {
 	if sp.cached == nil {
 		sp.cached = map[bool][]valCase{}
@@ -251,7 +259,8 @@ func (sp *spec) cases(thorough bool) []valCase {
 					}
 					vc.m = mode{full: thorough, sum: !thorough}
 				default:
-					vc.m = mode{sum: true}
+					// 4 nodes (thorough only): the shortest encoding of every value
+					vc.m = mode{sum: true, canon: true}
 				}
 				out = append(out, vc)
 			}
